@@ -856,7 +856,11 @@ let run_cfg which file =
             let opted = List.mem (p ^ "!expand") (List.map fst raws_l) in
             let want = default_scalar pat (expand_scalar envl pat opted (explode raw)) in
             let got = (try Some (List.assoc p leaves_l) with Not_found -> None) in
-            let skip = List.mem (implode (List.nth pat (List.length pat - 1))) ["version"; "prerelease"; "version_metadata"; "arch"] in
+            (* Parse goes on to split the version (WithDefaults), so these leaves are compared by C14 - unless the document's
+               schema is "none", under which version and prerelease stay as expanded *)
+            let schema_none = (try List.assoc "/version_schema" raws_l = "none" with Not_found -> false) in
+            let skip = List.mem (implode (List.nth pat (List.length pat - 1)))
+                (if schema_none && List.length segs = 1 then ["version_metadata"; "arch"] else ["version"; "prerelease"; "version_metadata"; "arch"]) in
             match got with
             | Some g -> if (not skip) && implode want <> g then problems := Printf.sprintf "%s: raw %S model %S impl %S" p raw (implode want) g :: !problems
             | None -> problems := Printf.sprintf "%s: missing after parsing" p :: !problems
